@@ -144,7 +144,9 @@ def _resolve_module_name(ref: str, module: str | None) -> str | None:
 
     # Easy path, use the qualname if it's provided.
     module = ref.split(".", maxsplit=1)[0]
-    if module != ref:
+    # Only a plain dotted name carries its module ("pkg.Name"); the first dot of
+    #   an expression ("list[pkg.Name]", "(pkg.A | None)") says nothing.
+    if module != ref and ref.replace(".", "").isidentifier():
         return module
     # Harder path, find the actual object in the stack frame, if possible.
     obj = frames.extract(ref)
